@@ -103,7 +103,9 @@ def explore(chk: Check, tier: str, want: str):
                 raise MachineryError(f"run_contract raised {out.exception}")
             runs.append((contract, metas, cli, out))
         # division / remainder with a symbolic divisor around the zero divisor (refinement of the abstractions)
-        for cli in ((),) if tier == "quick" else CONFIGS:  # (z3 needs minutes for the 256-bit division queries: thorough tier only)
+        # (z3 needs minutes for the 256-bit division queries: thorough tier only; --cache-solver: the named-assertion encoding
+        # goes through refinement too)
+        for cli in ((), ("--cache-solver",)) if tier == "quick" else CONFIGS + [("--cache-solver",), ("--cache-solver", "--solver", "z3")]:
             contract, metas = testgen.gen_divzero_contract(rnd)
             out = run_contract(contract, cli=cli)
             if out.exception:
